@@ -358,7 +358,52 @@ func H_C09_reqpos(v *V) {
 	}
 }
 
+type c09Serve struct {
+	Ports []int `long:"port" env:"C09_PORTS" env-delim:","`
+	Level int   `long:"level" env:"C09_LEVEL"`
+	log   *c09Log
+}
+
+func (c *c09Serve) Execute(a []string) error { return c.log.run("serve", a) }
+
+// H_C09_envfault: a value that does not convert arrives through the
+// environment (a scalar, or any element of a delimited list): the parse
+// fails and nothing runs.
+func H_C09_envfault(v *V) {
+	log := &c09Log{}
+	serve := &c09Serve{log: log}
+	p := NewNamedParser("prog", None)
+	p.AddGroup("Application Options", "", &c09Root{})
+	p.AddCommand("serve", "", "", serve)
+	handlerCalls := 0
+	if v.Choice(2) == 1 {
+		p.CommandHandler = func(c Commander, args []string) error {
+			handlerCalls++
+			return c.Execute(args)
+		}
+	}
+	F := v.String(v.Shape("lf"))
+	v.Assume(!refIsDecimal(F) && refIndexByte(F, ',') < 0)
+	switch v.Choice(4) {
+	case 0:
+		v.Setenv("C09_LEVEL", F)
+	case 1:
+		v.Setenv("C09_PORTS", F+",80,443")
+	case 2:
+		v.Setenv("C09_PORTS", "80,"+F+",443")
+	case 3:
+		v.Setenv("C09_PORTS", "80,443,"+F)
+	}
+	_, err := p.ParseArgs([]string{"-g", "serve", "rest"})
+	vObsErr(v, err)
+	v.ObserveInt("runs", len(log.ids))
+	v.Reach("faulty")
+	v.Assert(err != nil, "an environment value that does not convert is a parse error")
+	v.Assert(len(log.ids) == 0 && handlerCalls == 0, "nothing is executed when an environment value does not convert")
+}
+
 func init() {
+	vHarnesses["H_C09_envfault"] = H_C09_envfault
 	vHarnesses["H_C09_reqpos"] = H_C09_reqpos
 	vHarnesses["H_C09_posfault"] = H_C09_posfault
 	vHarnesses["H_C09_exec"] = H_C09_exec
